@@ -45,8 +45,12 @@ pub struct TcpScript {
     pub cut_after: Option<usize>,
     /// the application closes its sending side right after its last write, without waiting for an answer
     pub early: bool,
-    /// "app" / "target": that side resets its connection (instead of closing it) once the upstream bytes have arrived
+    /// "app" / "target": that side resets its connection (instead of closing it) once the upstream bytes have arrived;
+    /// "target-answer": the target answers and closes at once while part of the upload is still unread (its kernel resets)
     pub reset: Option<String>,
+    /// the target closes first and the application, having seen the end, keeps its socket open and idle: everything
+    /// but that one socket has to be released by then
+    pub hold: bool,
 }
 
 fn free_port() -> u16 {
@@ -416,8 +420,8 @@ const PATIENCE: Duration = Duration::from_secs(8);
 /// where the server dialled, what arrived on each side, who saw end-of-stream, and whether the end
 /// was seen promptly after the side that ends the flow closed
 pub async fn tcp_flow(client_port: u16, sc: TcpScript, links: Arc<std::sync::Mutex<Vec<tokio::task::AbortHandle>>>) -> String {
-    let TcpScript { kind, host, up, down, target_closes_first, target, cut_after, reset, early } = sc;
-    let (reset_app, reset_target) = (reset.as_deref() == Some("app"), reset.as_deref() == Some("target"));
+    let TcpScript { kind, host, up, down, target_closes_first, target, cut_after, reset, early, hold } = sc;
+    let (reset_app, reset_target, reset_answer) = (reset.as_deref() == Some("app"), reset.as_deref() == Some("target"), reset.as_deref() == Some("target-answer"));
     let Ok(listener) = TcpListener::bind("127.0.0.1:0").await else { return "no-loopback".to_owned() };
     let tport = listener.local_addr().unwrap().port();
     let listener = if target == "up" {
@@ -442,7 +446,9 @@ pub async fn tcp_flow(client_port: u16, sc: TcpScript, links: Arc<std::sync::Mut
     let seen = Arc::new(Mutex::new(Seen::default()));
     let seen2 = seen.clone();
     let down2 = down.clone();
-    let wait_for = if cut_after.is_some() || reset_app { usize::MAX } else { total_up };
+    // (answer-and-reset: the last bytes of the upload stay unread in the target's socket)
+    let unread = if reset_answer { total_up.saturating_sub(1).min(37) } else { 0 };
+    let wait_for = if cut_after.is_some() || reset_app { usize::MAX } else { total_up - unread };
     let accepted = Arc::new(std::sync::atomic::AtomicBool::new(false));
     let accepted2 = accepted.clone();
     let target_task = tokio::spawn(async move {
@@ -454,7 +460,8 @@ pub async fn tcp_flow(client_port: u16, sc: TcpScript, links: Arc<std::sync::Mut
             if seen2.lock().await.got.len() >= wait_for {
                 break;
             }
-            match tokio::time::timeout(Duration::from_millis(6000), t.read(&mut buf)).await {
+            let room = if reset_answer { (wait_for - seen2.lock().await.got.len()).min(buf.len()) } else { buf.len() };
+            match tokio::time::timeout(Duration::from_millis(6000), t.read(&mut buf[..room])).await {
                 Ok(Ok(0)) => {
                     let mut s = seen2.lock().await;
                     s.eof = true;
@@ -474,6 +481,14 @@ pub async fn tcp_flow(client_port: u16, sc: TcpScript, links: Arc<std::sync::Mut
         if reset_target {
             #[allow(deprecated)]
             let _ = t.set_linger(Some(Duration::from_secs(0)));
+            seen2.lock().await.closed_at = Some(std::time::Instant::now());
+            drop(t);
+            return true;
+        }
+        if reset_answer {
+            // let the rest of the upload reach this socket unread, answer, and go away at once
+            tokio::time::sleep(Duration::from_millis(150)).await;
+            let _ = t.write_all(&down2).await;
             seen2.lock().await.closed_at = Some(std::time::Instant::now());
             drop(t);
             return true;
@@ -624,6 +639,32 @@ pub async fn tcp_flow(client_port: u16, sc: TcpScript, links: Arc<std::sync::Mut
             }
         }
     }
+    let mut idle_held = None;
+    if hold && eof {
+        // the application stays, idle: once things have settled, letting go of its socket must release that socket only
+        async fn settle() -> usize {
+            let mut last = open_fds();
+            let mut stable = 0;
+            for _ in 0..150 {
+                tokio::time::sleep(Duration::from_millis(20)).await;
+                let now = open_fds();
+                if now == last {
+                    stable += 1;
+                    if stable >= 10 {
+                        break;
+                    }
+                } else {
+                    stable = 0;
+                    last = now;
+                }
+            }
+            last
+        }
+        let before = settle().await;
+        drop(app);
+        let after = settle().await;
+        idle_held = Some(before.saturating_sub(after).saturating_sub(1));
+    }
     // the application's side is over: a target that has not even been dialled by now will not be
     if !accepted.load(std::sync::atomic::Ordering::SeqCst) {
         tokio::time::sleep(Duration::from_millis(300)).await;
@@ -645,6 +686,9 @@ pub async fn tcp_flow(client_port: u16, sc: TcpScript, links: Arc<std::sync::Mut
     if early {
         return format!("dialed={} up={} eof={} target-eof={} prompt={}", dialed as u8, if s.got == want_up { "ok".to_owned() } else { format!("diff:{}of{}", s.got.len(), want_up.len()) }, eof as u8, s.eof as u8, within(app_closed_at, s.eof_at) & within(app_closed_at, eof_at));
     }
+    if reset_answer {
+        return format!("dialed={} down={} eof={} prompt={}", dialed as u8, if got_down == down { "ok".to_owned() } else { format!("diff:{}of{}", got_down.len(), down.len()) }, eof as u8, within(s.closed_at, eof_at));
+    }
     if reset_target {
         return format!("dialed={} up={} end={} prompt={}", dialed as u8, if s.got == want_up { "ok" } else { "diff" }, eof as u8, within(s.closed_at, eof_at));
     }
@@ -652,14 +696,20 @@ pub async fn tcp_flow(client_port: u16, sc: TcpScript, links: Arc<std::sync::Mut
         let prefix = want_up.starts_with(&s.got) && s.got.len() >= sent;
         return format!("dialed={} up-prefix={} eof={} target-eof={} prompt={}", dialed as u8, if prefix { "ok" } else { "diff" }, eof as u8, s.eof as u8, within(app_closed_at, eof_at) & (within(app_closed_at, s.eof_at) | !dialed as u8));
     }
+    let held = match idle_held {
+        Some(n) => format!(" idle-held={}", n),
+        None if hold => " idle-held=?".to_owned(),
+        None => String::new(),
+    };
     format!(
-        "dialed={} up={} down={} eof={} target-eof={} prompt={}",
+        "dialed={} up={} down={} eof={} target-eof={} prompt={}{}",
         dialed as u8,
         if s.got == want_up { "ok".to_owned() } else { format!("diff:{}of{}", s.got.len(), want_up.len()) },
         if got_down == down { "ok".to_owned() } else { format!("diff:{}of{}", got_down.len(), down.len()) },
         eof as u8,
         if target_closes_first { "-".to_owned() } else { (s.eof as u8).to_string() },
-        if target_closes_first { within(s.closed_at, eof_at) } else { within(app_closed_at, s.eof_at) & within(app_closed_at, eof_at) }
+        if target_closes_first { within(s.closed_at, eof_at) } else { within(app_closed_at, s.eof_at) & within(app_closed_at, eof_at) },
+        held
     )
 }
 
